@@ -23,6 +23,8 @@ use std::sync::Arc;
 #[derive(Clone, Debug, Serialize, Deserialize, PartialEq)]
 pub enum IOp {
     Deliver { sig: u8 },
+    /// n deliveries back to back (fills the per-signal buffer of the info-carrying exfiltrators)
+    Burst { sig: u8, n: u8 },
     AddSignal { sig: u8 },
     Close,
     IsClosed,
@@ -33,6 +35,9 @@ pub struct INested {
     pub thread: usize,
     pub at: u32,
     pub sig: u8,
+    /// point class the injection counts (see vsched::Nested::on)
+    #[serde(default)]
+    pub on: u8,
 }
 
 #[derive(Clone, Debug, Serialize, Deserialize)]
@@ -54,6 +59,7 @@ pub fn strategy(with_close: bool) -> BoxedStrategy<IterCase> {
     let op = if with_close {
         prop_oneof![
             6 => (0u8..3).prop_map(|sig| IOp::Deliver { sig }),
+            1 => (0u8..3, 4u8..8).prop_map(|(sig, n)| IOp::Burst { sig, n }),
             1 => (0u8..3).prop_map(|sig| IOp::AddSignal { sig }),
             3 => Just(IOp::Close),
             2 => Just(IOp::IsClosed),
@@ -62,6 +68,7 @@ pub fn strategy(with_close: bool) -> BoxedStrategy<IterCase> {
     } else {
         prop_oneof![
             8 => (0u8..3).prop_map(|sig| IOp::Deliver { sig }),
+            2 => (0u8..3, 4u8..8).prop_map(|(sig, n)| IOp::Burst { sig, n }),
             1 => (0u8..3).prop_map(|sig| IOp::AddSignal { sig }),
             1 => Just(IOp::IsClosed),
         ]
@@ -73,12 +80,20 @@ pub fn strategy(with_close: bool) -> BoxedStrategy<IterCase> {
         1u8..5,
         vec(0u8..3, 1..3),
         vec(vec(op, 1..7), 1..4),
-        vec((0usize..4, 1u32..60, 0u8..3), 0..3),
+        vec(
+            prop_oneof![
+                2 => (0usize..4, 1u32..60, 0u8..3).prop_map(|(t, at, sig)| (t, at, sig, 0u8)),
+                1 => (Just(0usize), 60u32..700, 0u8..3).prop_map(|(t, at, sig)| (t, at, sig, 0u8)),
+                // targeted at the consumer: its k-th raw cell access / drain / blocking-read entry
+                3 => (Just(0usize), 1u32..8, 0u8..3, 1u8..4).prop_map(|(t, at, sig, on)| (t, at, sig, on)),
+            ],
+            0..4,
+        ),
         schedule_strategy(200),
     )
         .prop_map(|(exf, consumer, polls, init, others, nested, schedule)| {
             let n = others.len() + 1;
-            let nested = nested.into_iter().map(|(t, at, sig)| INested { thread: t % n, at, sig }).collect();
+            let nested = nested.into_iter().map(|(t, at, sig, on)| INested { thread: t % n, at, sig, on }).collect();
             IterCase { exf, consumer, polls, init, others, nested, schedule }
         })
         .boxed()
@@ -199,6 +214,23 @@ where
             for r in p {
                 yielded(&r, 1);
             }
+            // calls that start after close must keep returning promptly
+            for k in 0..(case.polls % 3) {
+                let c = vsched::call("wait", 2 + k as i64, 0);
+                let p = sigs.wait();
+                vsched::ret(c, 0);
+                for r in p {
+                    yielded(&r, 1);
+                }
+            }
+            if case.polls >= 3 {
+                let c = vsched::call("forever", 2, 0);
+                let n = sigs.forever().count();
+                vsched::ret(c, n as i64);
+            }
+            let c = vsched::call("is_closed", 2, 0);
+            let b = sigs.is_closed();
+            vsched::ret(c, b as i64);
             let cl = std::panic::catch_unwind(std::panic::AssertUnwindSafe(move || drop(sigs)));
             if cl.is_err() {
                 vsched::violate("C11/drop-panic", "dropping the instance panicked".into());
@@ -263,6 +295,25 @@ where
                         }
                         PollResult::Closed => {
                             vsched::ret(c, 4);
+                            // closed is final: further polls say so again, without blocking
+                            for _ in 0..(case.polls % 3) {
+                                let c = vsched::call("poll_signal", 1, 0);
+                                let r = it.poll_signal(&mut |_read: &mut UnixStream| {
+                                    vsched::mark("cb", 0, 0);
+                                    Ok(false)
+                                });
+                                match r {
+                                    PollResult::Closed => vsched::ret(c, 4),
+                                    PollResult::Signal(o) => {
+                                        vsched::ret(c, 1);
+                                        yielded(&o, 1);
+                                    }
+                                    _ => {
+                                        vsched::ret(c, 3);
+                                        vsched::violate("C11/not-sticky", "poll_signal did not report Closed again after it had reported Closed".into());
+                                    }
+                                }
+                            }
                             break;
                         }
                         PollResult::Err(_) => {
@@ -295,7 +346,7 @@ pub fn execute(case: &IterCase) -> (RunResult, CaseReport) {
     let cfg = Config {
         schedule: case.schedule.clone(),
         step_bound: 60_000,
-        nested: case.nested.iter().enumerate().map(|(i, x)| Nested { thread: x.thread, at: x.at, id: i as u32 }).collect(),
+        nested: case.nested.iter().enumerate().map(|(i, x)| Nested { thread: x.thread, at: x.at, id: i as u32, on: x.on }).collect(),
         weak: true,
         log_ops: true,
         abort_unwind: false,
@@ -345,6 +396,11 @@ pub fn execute(case: &IterCase) -> (RunResult, CaseReport) {
             for op in ops.iter() {
                 match op {
                     IOp::Deliver { sig } => sim_deliver(SIGS[*sig as usize % 3], false),
+                    IOp::Burst { sig, n } => {
+                        for _ in 0..*n {
+                            sim_deliver(SIGS[*sig as usize % 3], false);
+                        }
+                    }
                     IOp::AddSignal { sig } => {
                         if let Some(h) = get_handle() {
                             let s = SIGS[*sig as usize % 3];
@@ -511,6 +567,15 @@ pub fn analyse(case: &IterCase, res: &RunResult) -> CaseReport {
     }
     let completed = res.outcome == Outcome::Completed;
     rep.aborted = !completed;
+    for r in log.iter() {
+        if let Item::Panic { msg } = &r.item {
+            if r.tid == 0 {
+                for k in ["C09/consumer-panic", "C10/consumer-panic", "C11/consumer-panic"] {
+                    rep.viol(k, format!("the consumer panicked: {}", msg));
+                }
+            }
+        }
+    }
     let first_close_call = closes.iter().map(|c| c.0).min();
     let first_close_ret = closes.iter().filter_map(|c| c.1).min();
     let user_close = closes.iter().any(|c| !c.2);
